@@ -341,6 +341,7 @@ pub struct Acc {
     pub nontrivial_hashes: BTreeSet<u64>,
     pub all_hashes: BTreeSet<u64>,
     pub state_hashes: BTreeSet<u64>,
+    pub interleavings: BTreeSet<u64>,
     pub samples: BTreeMap<u64, String>,
     pub findings: BTreeMap<(String, String), (u64, String)>,
     pub failure: Option<Failure>,
@@ -356,6 +357,7 @@ impl Acc {
             nontrivial_hashes: BTreeSet::new(),
             all_hashes: BTreeSet::new(),
             state_hashes: BTreeSet::new(),
+            interleavings: BTreeSet::new(),
             samples: BTreeMap::new(),
             findings: BTreeMap::new(),
             failure: None,
@@ -370,6 +372,7 @@ impl Acc {
         self.nontrivial_hashes.extend(o.nontrivial_hashes);
         self.all_hashes.extend(o.all_hashes);
         self.state_hashes.extend(o.state_hashes);
+        self.interleavings.extend(o.interleavings);
         for (k, v) in o.samples {
             self.samples.insert(k, v);
         }
@@ -409,6 +412,7 @@ pub fn exec_one(prop: &str, spec: &RunSpec, unit: u64, acc: &mut Acc, opts: RunO
     acc.stats.merge(&r.stats);
     acc.all_hashes.insert(r.hash);
     acc.state_hashes.extend(r.state_hashes.iter().copied());
+    acc.interleavings.extend(r.interleavings.iter().copied());
     for f in &r.findings {
         let e = acc.findings.entry((f.prop.to_string(), f.clause.to_string())).or_insert((0, f.detail.clone()));
         e.0 += 1;
@@ -537,6 +541,7 @@ pub fn cmd_batch(m: &BTreeMap<String, String>) -> i32 {
         ("distinct_nontrivial", J::i(acc.nontrivial_hashes.len() as i128)),
         ("distinct_runs", J::i(acc.all_hashes.len() as i128)),
         ("distinct_states", J::i(acc.state_hashes.len() as i128)),
+        ("distinct_interleavings", J::i(acc.interleavings.len() as i128)),
         ("samples", J::Arr(acc.samples.values().map(|s| J::s(s.clone())).collect())),
         ("stats", stats_j),
         ("findings", findings_j),
